@@ -618,6 +618,7 @@ Section Progress.
     { apply nfb_bind; [apply nfb_of_nf, nf_execute|apply ni_execute|]. intros st.
       destruct st; [apply IH|apply nfb_of_nf, nf_ret]. }
     destruct c2; try exact Hex.
+    2:{ apply nfb_bind; [apply nfb_of_nf, nf_refresh_line|apply ni_refresh_line|]. intros _. apply IH. }
     apply nfb_bind; [apply nfb_of_nf, nf_next_char|apply ni_next_char|]. intros ch.
     apply nfb_bind; [apply nfb_of_nf; unfold edit_insert; disp; nf_all|unfold edit_insert; disp; ni_all|]. intros _. apply IH.
   Qed.
